@@ -9,7 +9,7 @@ il, ml = impl.splitlines(), model.splitlines()
 start = 0
 for i, (a, b) in enumerate(zip(il, ml)):
     if a.startswith("begin"): start = i
-    if b.endswith("viol " + tag):
+    if " viol " in b and tag in b.rsplit(" viol ", 1)[1].split(","):
         # keep only state-changing lines (drop snaps and other monitor lines), then the failing monitor
         keep = [l for l in il[start:i] if not l.startswith("snap") and not l.startswith("mon_")]
         with open(out, "w") as f:
